@@ -308,6 +308,15 @@ func (fg *FuncGen) trObject(obj types.Object, env *SpecEnv) Val {
 			fg.specFail(env, "constant %s not representable", o.Name())
 		}
 		return Val{T: term, Typ: t}
+	case *types.Func:
+		// a package-level function used as a value (compared with a function-typed field)
+		for _, sp := range fg.g.prog.AllPackages() {
+			if sp.Pkg == o.Pkg() {
+				if f, ok := sp.Members[o.Name()].(*ssa.Function); ok {
+					return Val{T: fg.funcID(f), Typ: o.Type()}
+				}
+			}
+		}
 	case *types.Var:
 		// package-level variable
 		for _, sp := range fg.g.prog.AllPackages() {
@@ -967,6 +976,9 @@ func (fg *FuncGen) trSpecCall(sf *SpecFun, x *SCall, env *SpecEnv) Val {
 				v = Val{T: fg.box(v.T, v.Typ), Typ: pt}
 			} else if isInt(pt) && isInt(v.Typ) {
 				v = Val{T: fg.convInt(v.T, v.Typ, pt), Typ: pt}
+			} else if pp, ok := pt.Underlying().(*types.Pointer); ok && v.Src != "" && types.Identical(pp.Elem(), v.Typ) {
+				// an embedded struct field passed where its address is wanted (p.lex for *Lexer)
+				v = Val{T: v.Src, Typ: pt}
 			} else {
 				fg.specFail(env, "spec %s: argument %d has type %s, want %s", sf.Name, i, v.Typ, pt)
 			}
